@@ -3,13 +3,16 @@
 //   XDOM=1  crab::domains::constant_domain<z_number, varname_t>   (constant_domain.hpp)
 //   XDOM=2  crab::domains::sign_domain<z_number, varname_t>       (sign_domain.hpp)
 //   XDOM=3  ikos::congruence_domain<z_number, varname_t>          (congruences.hpp)
+//   XDOM=4  crab::domains::numerical_congruence_domain<interval_domain<z_number, varname_t>>
+//           ("ric": combined_congruences.hpp over combined_domains.hpp; the class gives no access
+//           to its components, so the bindings are read from the text printed by write())
 // An operation history is run over a pool of abstract values; after EVERY operation the complete
 // value of the target is printed (bottom flag, top flag, the value of every variable that is not
 // top, exported constraint system) and the Lean driver (lean/Driver/XDomH.lean) compares it with
 // the result of the models `Crab.CDom` / `Crab.SDom` / `Crab.GDom` op by op, and checks
 // soundness on concrete witness states.
 //
-// request : (xdom.hist <dom> (ops <op> ...))          <dom> ::= cst | sgn | cong
+// request : (xdom.hist <dom> (ops <op> ...))          <dom> ::= cst | sgn | cong | ric
 //   <op> ::= (top d) | (bot d) | (copy d s) | (assign d x <lin>) | (wassign d x <lin>)
 //          | (arith d <aop> x y <z>) | (bitw d <bop> x y <z>) | (assume d <cst>...)
 //          | (forget d x...) | (forget1 d x) | (project d x...) | (rename d (x...) (y...))
@@ -20,6 +23,7 @@
 //   <z>   ::= variable `vK` or integer constant ; <lin> ::= (lin c (k vI) ...)
 //   <cst> ::= (le <lin>) | (lt <lin>) | (eq <lin>) | (ne <lin>)        meaning  lin ⋈ 0
 //   <val> ::= top | bot | <int> (cst) | ltz gtz eqz nez gez lez (sgn) | (cg a b) (cong)
+//           | (ic <itv> <cong-val>) (ric; in results a missing component is printed as top)
 // result  : one item per op:  (s <isbot> <istop> (b (vI <val>)...) (cs <cst>...) <q>)
 //   <q> = answer of a query op (entails, leq: 0/1; at: interval), `-` otherwise;
 //   `(err)` if the op raised CRAB_ERROR (the history stops there).
@@ -32,9 +36,12 @@
 #include <crab/domains/constant_domain.hpp>
 #include <crab/domains/sign_domain.hpp>
 #include <crab/domains/congruences.hpp>
+#include <crab/domains/intervals.hpp>
+#include <crab/domains/combined_congruences.hpp>
 #include <crab/fixpoint/thresholds.hpp>
 
 #include <algorithm>
+#include <map>
 
 using namespace vh;
 using namespace crab::cfg_impl;
@@ -51,10 +58,14 @@ const char *DOMNAME = "cst";
 using Dom = sign_domain<z_number, varname_t>;
 using Val = sign<z_number>;
 const char *DOMNAME = "sgn";
-#else
+#elif XDOM == 3
 using Dom = congruence_domain<z_number, varname_t>;
 using Val = congruence<z_number>;
 const char *DOMNAME = "cong";
+#else
+using Dom = numerical_congruence_domain<interval_domain<z_number, varname_t>>;
+using Val = interval_congruence<z_number>;
+const char *DOMNAME = "ric";
 #endif
 
 const unsigned NV = 8; // integer variables v0..v7
@@ -139,7 +150,7 @@ Val parse_val(const Sx &x) {
 }
 Val get_val(Dom &d, const z_var &v) { return d.get_sign(v); }
 void set_val(Dom &d, const z_var &v, const Val &c) { d.set_sign(v, c); }
-#else
+#elif XDOM == 3
 std::string val_str(const Val &c) {
   if (c.is_bottom()) return "bot";
   if (c.is_top()) return "top";
@@ -154,12 +165,67 @@ Val parse_val(const Sx &x) {
 }
 Val get_val(Dom &d, const z_var &v) { return d.to_congruence(v); }
 void set_val(Dom &d, const z_var &v, const Val &c) { d.set(v, c); }
+#else
+congruence<z_number> parse_cong(const Sx &x) {
+  if (x.is_atom && x.a == "top") return congruence<z_number>::top();
+  if (x.is_atom && x.a == "bot") return congruence<z_number>::bottom();
+  z_number a(x[1].a), b(x[2].a);
+  if (a == z_number(0)) return congruence<z_number>(b);
+  return congruence<z_number>(b) | congruence<z_number>(b + a); // the (a, b) constructor is private
+}
+// (ic <itv> <cong>): the constructor reduces the pair ("pre: x is already reduced" of set)
+Val parse_val(const Sx &x) { return Val(parse_interval(x[1]), parse_cong(x[2])); }
+void set_val(Dom &d, const z_var &v, const Val &c) { d.set(v, c); }
+
+// ---- the two components as printed by write(): "({v0 -> [1, 5]; ...}, {v0 -> 2Z+1; ...})"
+std::string conv_bound(const std::string &b) { return b; } // "-oo", "+oo" or a number
+std::string conv_itv(const std::string &t) { // "[a, b]"
+  size_t c = t.find(", ");
+  return "(iv " + conv_bound(t.substr(1, c - 1)) + " " + conv_bound(t.substr(c + 2, t.size() - c - 3)) + ")";
+}
+std::string conv_cong(const std::string &t) { // "aZ+b" or "b"
+  size_t z = t.find("Z+");
+  if (z == std::string::npos) return "(cg 0 " + t + ")";
+  return "(cg " + t.substr(0, z) + " " + t.substr(z + 2) + ")";
+}
+// entries of "{k -> v; k -> v}" (the values contain no ';')
+void parse_map(const std::string &m, bool is_itv, std::map<unsigned, std::string> &out) {
+  std::string body = m.substr(1, m.size() - 2);
+  size_t i = 0;
+  while (i < body.size()) {
+    size_t e = body.find("; ", i);
+    std::string ent = body.substr(i, e == std::string::npos ? std::string::npos : e - i);
+    size_t a = ent.find(" -> ");
+    unsigned k = (unsigned)std::stoul(ent.substr(1, a - 1));
+    std::string v = ent.substr(a + 4);
+    out[k] = is_itv ? conv_itv(v) : conv_cong(v);
+    if (e == std::string::npos) break;
+    i = e + 2;
+  }
+}
 #endif
 
 std::string dump(Dom &d) {
   std::ostringstream o;
   bool b = d.is_bottom();
   o << (b ? 1 : 0) << " " << (d.is_top() ? 1 : 0) << " (b";
+#if XDOM == 4
+  if (!b) {
+    crab::crab_string_os os;
+    d.write(os);
+    std::string t = os.str(); // "(" first ", " second ")"
+    size_t close1 = t.find('}');
+    std::string m1 = t.substr(1, close1), m2 = t.substr(close1 + 3, t.size() - close1 - 4);
+    std::map<unsigned, std::string> iv, cg;
+    parse_map(m1, true, iv);
+    parse_map(m2, false, cg);
+    for (unsigned i = 0; i < NV; i++) {
+      if (!iv.count(i) && !cg.count(i)) continue;
+      o << " (v" << i << " (ic " << (iv.count(i) ? iv[i] : std::string("(iv -oo +oo)")) << " "
+        << (cg.count(i) ? cg[i] : std::string("top")) << "))";
+    }
+  }
+#else
   if (!b) {
     // the classes have no iterator: the value of every variable of the universe is read; top is
     // never stored, so these are the bindings (is_top() tells whether the tree is empty)
@@ -168,6 +234,7 @@ std::string dump(Dom &d) {
       if (!c.is_top()) o << " (v" << i << " " << val_str(c) << ")";
     }
   }
+#endif
   o << ") (cs";
   auto sys = d.to_linear_constraint_system();
   std::vector<std::string> cs;
@@ -332,15 +399,23 @@ std::string gen_val(Rng &r) {
   static const char *S[] = {"bot", "ltz", "gtz", "eqz", "nez", "gez", "lez", "top"};
   return S[r.below(20) == 0 ? 0 : 1 + r.below(7)];
 #else
-  switch (r.below(14)) {
-  case 0: return "top";
-  case 1: return "bot";
-  case 2: case 3: case 4: return "(cg 0 " + gen_const(r) + ")";
-  default: {
-    int64_t a = r.range(2, r.coin() ? 8 : 40);
-    return "(cg " + std::to_string(a) + " " + std::to_string(r.range(0, a - 1)) + ")";
-  }
-  }
+  auto gen_cg = [&]() -> std::string {
+    switch (r.below(14)) {
+    case 0: return "top";
+    case 1: return "bot";
+    case 2: case 3: case 4: return "(cg 0 " + gen_const(r) + ")";
+    default: {
+      int64_t a = r.range(2, r.coin() ? 8 : 40);
+      return "(cg " + std::to_string(a) + " " + std::to_string(r.range(0, a - 1)) + ")";
+    }
+    }
+  };
+#if XDOM == 3
+  return gen_cg();
+#else
+  z_interval i = gen_interval(r, r.below(4) != 0);
+  return "(ic " + ivs(i) + " " + (r.below(3) ? gen_cg() : std::string("top")) + ")";
+#endif
 #endif
 }
 
@@ -382,7 +457,7 @@ std::string gen(Rng &r, const Args &a) {
       const char *bo = BOP[r.below(6)];
       // a left shift by a huge amount aborts inside gmp (z_number::operator<< shifts by
       // mpz_get_ui of the amount: known finding F22): the amount is made small first
-      if ((XDOM == 1 || XDOM == 3) && std::string(bo) == "shl" && z[0] == 'v') {
+      if ((XDOM == 1 || XDOM == 3 || XDOM == 4) && std::string(bo) == "shl" && z[0] == 'v') {
         if (XDOM == 3 && r.coin()) {
           int64_t a = r.range(2, 12);
           o << " (set " << d << " " << z << " (cg " << a << " " << r.range(0, a - 1) << "))";
